@@ -18,7 +18,9 @@ theorem pointwise_block1 (norm : K → K) (epsSq : K) (m : Nat) (hm : m ≤ 1) (
   unfold pointwiseAggregates
   rw [if_pos rfl]
   cases plainAggregates epsSq A with
-  | ok a => simp only [removeSmall_id 1 m hm]
+  | ok a =>
+    simp only [removeSmall_id 1 m hm]
+    rw [if_neg (fun h => absurd h.1 (by omega))]
   | emptyLevel => rfl
   | precondition => rfl
 
@@ -38,6 +40,7 @@ theorem pointwise_blocks (norm : K → K) (epsSq : K) (b m : Nat) (hb : b ≠ 1)
     | ok pw =>
       rw [hpw] at h
       simp only [removeSmall_id b m hm] at h
+      rw [if_neg (fun h => absurd h.1 (by omega))] at h
       injection h with h
       subst h
       refine ⟨Ap, pw, rfl, hpw, rfl, by simp, fun ia hia => ?_⟩
